@@ -525,6 +525,39 @@ def engine_tping(prop, tier, seed, work):
     return res
 
 
+# ------------------------------------------------------------------------------ free-running channel race
+def engine_hammer(prop, tier, seed, work):
+    """many short free-running rounds of a sender thread against the spinning loop thread (drive_hammer); the summary is
+    judged by ChanHammerTrace.tla.  Aims at windows between library steps that have no yield point in between."""
+    res = Result()
+    n = 50000 if tier == "quick" else 400000
+    scns = [{"id": "hm%d_unb" % seed, "rounds": n, "bound": -1}, {"id": "hm%d_b2" % seed, "rounds": n // 2, "bound": 2},
+            {"id": "hm%d_b1" % seed, "rounds": n // 2, "bound": 1}]
+    sp, tr = os.path.join(work, "hammer_scn.ndjson"), os.path.join(work, "hammer_trace.ndjson")
+    with open(sp, "w") as f:
+        for s in scns:
+            f.write(json.dumps(s) + "\n")
+    sh([BIN + "/drive_hammer", sp, tr], timeout=300)
+    verdict, _, _ = tlc_trace("ChanHammerTrace", tr, work)
+    res.traces += verdict["scenarios"]
+    res.evaluations += len(scns)
+    res.nontrivial |= {s["id"] for s in scns}
+    res.cmds.append("drive_hammer hammer_scn.ndjson hammer_trace.ndjson && TRACE=hammer_trace.ndjson tlc -config ChanHammerTrace.cfg ChanHammerTrace.tla")
+    res.notes.append("free-running race: %d rounds of two sends against a spinning loop (unbounded, bound 2, bound 1)" % sum(s["rounds"] for s in scns))
+    byid = {s["id"]: s for s in scns}
+    per = collections.OrderedDict()
+    for x in verdict["viol"]:
+        if x["p"] == prop:
+            per.setdefault(x["scn"], []).append(x)
+    for scn, vs in per.items():
+        rp = "%s/replays/%s_%s.json" % (ROOT, prop, scn)
+        os.makedirs(ROOT + "/replays", exist_ok=True)
+        json.dump({"property": prop, "engine": "hammer", "scenario": byid.get(scn, {"id": scn}), "violations": vs,
+                   "trace": open(tr).read().splitlines()}, open(rp, "w"), indent=0)
+        res.viol.append({"prop": prop, "scn": scn, "clauses": sorted({x["c"] for x in vs}), "replay": rp, "first_line": vs[0]["l"]})
+    return res
+
+
 # ------------------------------------------------------------------------------ concurrent protocol engines
 CONC_KINDS = {"C02": ["chan"], "C03": ["ping"], "C04": ["chan"], "C10": ["exec"], "C11": ["signal", "blockon"]}
 # properties that only run the generated schedules of a kind (its protocol model belongs to another property)
@@ -861,6 +894,8 @@ for _p in CONC_KINDS:
 ENGINES["C06"].append(engine_slotlist)
 for _p in ("C01", "C05", "C12"):
     ENGINES[_p].append(engine_tping)
+for _p in ("C04", "C02"):
+    ENGINES[_p].append(engine_hammer)
 
 
 # engines that live in their own module tools/engine_<name>.py (loaded lazily: they import this module)
